@@ -7,6 +7,8 @@ pub mod c06_l2;
 pub mod c07;
 pub mod c07_l2;
 pub mod c18;
+pub mod c19;
+pub mod c19_l2;
 
 use crate::engine::Run;
 
@@ -18,6 +20,7 @@ pub fn dispatch(run: &mut Run) -> bool {
     "C06" => c06::run(run),
     "C07" => c07::run(run),
     "C18" => c18::run(run),
+    "C19" => c19::run(run),
     _ => return false,
   }
   true
